@@ -12,6 +12,7 @@ CONSTANTS
   FixNonRequest = FALSE
   FixLongWs = TRUE
   FarChoices = {FALSE}
+  FixNullRequired = TRUE
   HasValidator = TRUE
   NilPointerSkipsValidation = FALSE
 INIT Init
